@@ -29,19 +29,93 @@ theorem feedReports_slots (cfg : Cfg) (c : Ch) : ∀ (bs : Bytes) (s : St), (fee
     · refine (feedReports_slots cfg c bs _).trans ?_
       rw [setDline_slots]; exact List.Sublist.refl _
 
-/-- every event other than a delivery command, a read from a spawner and a restart leaves the
-delivery slots alone -/
-theorem slots_unchanged (cfg : Cfg) (s s' : St) (e : Ev) (h : accept cfg s e = some s')
+theorem slots_unchanged_core (cfg : Cfg) (s s' : St) (e : Ev) (h : acceptCore cfg s e = some s')
     (h1 : ∀ c d m p r, e ≠ .cmd c d m p r) (h2 : ∀ c bs, e ≠ .rbytes c bs) (h3 : e ≠ .restart) : s'.slots = s.slots := by
   cases e with
   | cmd c d m p r => exact absurd rfl (h1 c d m p r)
   | rbytes c bs => exact absurd rfl (h2 c bs)
   | restart => exact absurd rfl h3
   | _ =>
-    simp only [accept] at h
+    simp only [acceptCore] at h
     repeat' split at h
     all_goals first
       | (cases h; rfl)
       | cases h
+
+/-- every event other than a delivery command, a read from a spawner and a restart leaves the
+delivery slots alone -/
+theorem slots_unchanged (cfg : Cfg) (s s' : St) (e : Ev) (h : accept cfg s e = some s')
+    (h1 : ∀ c d m p r, e ≠ .cmd c d m p r) (h2 : ∀ c bs, e ≠ .rbytes c bs) (h3 : e ≠ .restart) : s'.slots = s.slots := by
+  rw [slots_unchanged_core cfg (s.before e) s' e h h1 h2 h3, St.before_slots]
+
+/-! ### the crash mode flag -/
+
+theorem handleReport_crashed (cfg : Cfg) (s : St) (c : Ch) (rep : Bytes) :
+    (handleReport cfg s c rep).crashed = s.crashed ∧ (handleReport cfg s c rep).cut = s.cut := by
+  simp only [handleReport]
+  repeat' split
+  all_goals exact ⟨rfl, rfl⟩
+
+theorem setDline_crashed (s : St) (c : Ch) (v : Bytes × Nat) : (s.setDline c v).crashed = s.crashed ∧ (s.setDline c v).cut = s.cut := by
+  cases c <;> exact ⟨rfl, rfl⟩
+
+theorem feedReports_crashed (cfg : Cfg) (c : Ch) : ∀ (bs : Bytes) (s : St),
+    (feedReports cfg s c bs).crashed = s.crashed ∧ (feedReports cfg s c bs).cut = s.cut
+  | [], s => ⟨rfl, rfl⟩
+  | b :: bs, s => by
+    simp only [feedReports]
+    split
+    · rename_i rep _
+      have h1 := feedReports_crashed cfg c bs (handleReport cfg (s.setDline c (reportByte (s.dline c).1 (s.dline c).2 b).1) c rep)
+      have h2 := handleReport_crashed cfg (s.setDline c (reportByte (s.dline c).1 (s.dline c).2 b).1) c rep
+      have h3 := setDline_crashed s c (reportByte (s.dline c).1 (s.dline c).2 b).1
+      exact ⟨by rw [h1.1, h2.1, h3.1], by rw [h1.2, h2.2, h3.2]⟩
+    · have h1 := feedReports_crashed cfg c bs (s.setDline c (reportByte (s.dline c).1 (s.dline c).2 b).1)
+      have h3 := setDline_crashed s c (reportByte (s.dline c).1 (s.dline c).2 b).1
+      exact ⟨by rw [h1.1, h3.1], by rw [h1.2, h3.2]⟩
+
+/-- only `.restart` changes the mode flag and `cut` inside `acceptCore` -/
+theorem crashed_core (cfg : Cfg) (s s' : St) (e : Ev) (h : acceptCore cfg s e = some s') (h3 : e ≠ .restart) :
+    s'.crashed = s.crashed ∧ s'.cut = s.cut := by
+  cases e with
+  | restart => exact absurd rfl h3
+  | rbytes c bs =>
+    simp only [acceptCore] at h
+    split at h
+    · cases h
+    · cases h; exact feedReports_crashed cfg c bs _
+  | _ =>
+    simp only [acceptCore] at h
+    repeat' split at h
+    all_goals first
+      | (cases h; exact ⟨rfl, rfl⟩)
+      | cases h
+
+/-- **The crash window closes with the first event that is not a crash event or an arrival**: after an accepted event the mode
+flag is set only if the event was the crash itself, or the flag was set before and the event is one of the window events
+(damage found in the dump, arrival of a message). -/
+theorem crashed_step (cfg : Cfg) (s s' : St) (e : Ev) (h : accept cfg s e = some s') (hc : s'.crashed = true) :
+    e = .restart ∨ (e.inCrashWindow = true ∧ s.crashed = true) := by
+  by_cases h3 : e = .restart
+  · exact Or.inl h3
+  · right
+    have := (crashed_core cfg (s.before e) s' e h h3).1
+    rw [hc] at this
+    cases hw : e.inCrashWindow with
+    | true => simp only [St.before, hw, if_true] at this; exact ⟨rfl, this.symm⟩
+    | false => simp [St.before, hw, St.calm] at this
+
+/-- outside the crash window `cut` is empty -/
+theorem cut_step (cfg : Cfg) (s s' : St) (e : Ev) (h : accept cfg s e = some s') (hc : s'.crashed = false) (h0 : s.crashed = false → s.cut = []) :
+    s'.cut = [] := by
+  by_cases h3 : e = .restart
+  · subst h3; simp only [accept, St.before, Ev.inCrashWindow, if_true, acceptCore] at h; cases h; cases hc
+  · have := crashed_core cfg (s.before e) s' e h h3
+    rw [this.2]
+    cases hw : e.inCrashWindow with
+    | true =>
+      simp only [St.before, hw, if_true] at this ⊢
+      exact h0 (by rw [← this.1]; exact hc)
+    | false => simp [St.before, hw, St.calm]
 
 end Nq.Lemmas.DS
